@@ -81,6 +81,80 @@ let c11 = function
      | ks -> Printf.sprintf "FAIL key=%s the real result differs from the defined set / decision" (Stdlib.String.concat "+" ks))
   | _ -> "FAIL malformed case"
 
+(* C05 / C06 *)
+let strs_of_sx x = Stdlib.List.map ns_of_sx (list_of_sx x)
+let show_strs l = "{" ^ Stdlib.String.concat "," (Stdlib.List.map (fun s -> "[" ^ Stdlib.String.concat " " (Stdlib.List.map (fun t -> string_of_int (int_of_n t)) s) ^ "]") l) ^ "}"
+let ff_fuel = nat_of_int 4000
+let nts_of g = Stdlib.List.sort_uniq compare (Stdlib.List.map int_of_n (Cfg.nts g))
+
+let c06_first = function
+  | [_; _; A "panic"] -> "FAIL key=panic first_k panicked"
+  | [g; k; ntsets; prsets; _order] ->
+    let g' = cfg_of_sx g and k' = int_of_sx k in
+    (* the implementation numbers non-terminals like the harness: index in sorted name order *)
+    let claimed = Stdlib.List.mapi (fun i s -> (n_of_int i, strs_of_sx s)) (list_of_sx ntsets) in
+    let claimed = Stdlib.List.filter (fun (a, _) -> Stdlib.List.mem (int_of_n a) (nts_of g')) claimed in
+    let prs = Stdlib.List.map strs_of_sx (list_of_sx prsets) in
+    (match FFCheck.first_check ff_fuel (nat_of_int k') g' claimed, FFCheck.first_prods_check ff_fuel (nat_of_int k') g' prs with
+     | Some true, Some true ->
+       let recursive = Stdlib.List.exists (fun p -> Stdlib.List.exists (function Cfg.NT _ -> true | _ -> false) p.Cfg.rhs) g'.Cfg.prods in
+       Printf.sprintf "OK %d first-k%d" (if k' >= 2 && recursive then 1 else 0) k'
+     | None, _ | _, None -> "SKIP reference out of fuel"
+     | Some false, _ ->
+       let t = (match FirstFollow.first_ref ff_fuel (nat_of_int k') g' with Some t -> t | None -> []) in
+       let bad = Stdlib.List.find (fun (a, s) -> Stdlib.List.sort compare s <> Stdlib.List.sort compare (FirstFollow.lookup t a)) claimed in
+       Printf.sprintf "FAIL key=first-nt FIRST_%d of non-terminal %d: claimed %s, defined %s" k' (int_of_n (fst bad)) (show_strs (snd bad)) (show_strs (FirstFollow.lookup t (fst bad)))
+     | _, Some false -> Printf.sprintf "FAIL key=first-prod FIRST_%d of some production differs from the definition" k')
+  | _ -> "FAIL malformed case"
+
+let c06_follow = function
+  | [_; _; A "panic"] -> "FAIL key=panic follow_k panicked"
+  | [g; k; ntsets; _order] ->
+    let g' = cfg_of_sx g and k' = int_of_sx k in
+    let claimed = Stdlib.List.mapi (fun i s -> (n_of_int i, strs_of_sx s)) (list_of_sx ntsets) in
+    let claimed = Stdlib.List.filter (fun (a, _) -> Stdlib.List.mem (int_of_n a) (nts_of g')) claimed in
+    (match FFCheck.follow_check ff_fuel (nat_of_int k') g' claimed with
+     | Some true -> Printf.sprintf "OK %d follow-k%d" (if k' >= 2 then 1 else 0) k'
+     | None -> "SKIP reference out of fuel"
+     | Some false ->
+       let wt = (match FirstFollow.first_ref ff_fuel (nat_of_int k') g' with
+           | Some ft -> (match FirstFollow.follow_ref ff_fuel (nat_of_int k') g' ft with Some w -> w | None -> [])
+           | None -> []) in
+       let bad = Stdlib.List.find (fun (a, s) -> Stdlib.List.sort compare s <> Stdlib.List.sort compare (FirstFollow.lookup wt a)) claimed in
+       Printf.sprintf "FAIL key=follow FOLLOW_%d of non-terminal %d: claimed %s, defined %s" k' (int_of_n (fst bad)) (show_strs (snd bad)) (show_strs (FirstFollow.lookup wt (fst bad))))
+  | _ -> "FAIL malformed case"
+
+let c05 = function
+  | [_; _; A "panic"] -> "FAIL key=panic decidable / calculate_lookahead_dfas panicked"
+  | [g; kk; rows; all] ->
+    let g' = cfg_of_sx g and kk' = int_of_sx kk in
+    let claimed = Stdlib.List.map (function
+        | L [a; A "none"] -> (n_of_int (int_of_sx a), None)
+        | L [a; k] -> (n_of_int (int_of_sx a), Some (nat_of_int (int_of_sx k)))
+        | _ -> failwith "row") (list_of_sx rows) in
+    let claimed = Stdlib.List.filter (fun (a, _) -> Stdlib.List.mem (int_of_n a) (nts_of g')) claimed in
+    (match FFCheck.decide_check ff_fuel (nat_of_int kk') g' claimed with
+     | None -> "SKIP reference out of fuel"
+     | Some false ->
+       let model = (match FirstFollow.decide_ref ff_fuel (nat_of_int kk') g' with Some r -> r | None -> []) in
+       let show = Stdlib.List.map (fun (a, r) -> Printf.sprintf "%d:%s" (int_of_n a) (match r with Some k -> string_of_int (int_of_nat k) | None -> "none")) in
+       Printf.sprintf "FAIL key=decision per-non-terminal lookahead: claimed %s, defined %s" (Stdlib.String.concat " " (show claimed)) (Stdlib.String.concat " " (show (Stdlib.List.sort compare model)))
+     | Some true ->
+       (* the overall verdict must agree with the rows: Ok iff no row is none, and every automaton's k
+          is the k decided for its non-terminal *)
+       let any_none = Stdlib.List.exists (fun (_, r) -> r = None) claimed in
+       let maxk = Stdlib.List.fold_left (fun m (_, r) -> match r with Some k -> max m (int_of_nat k) | None -> m) 0 claimed in
+       (match all with
+        | L (A "ok" :: ks) when not any_none ->
+          let bad = Stdlib.List.filter (fun e -> match ints_of_sx e with
+              | [a; k] -> (match Stdlib.List.assoc_opt (n_of_int a) claimed with Some (Some k') -> int_of_nat k' <> k | _ -> true)
+              | _ -> true) ks in
+          if bad = [] then Printf.sprintf "OK %d accept-k%d" (if maxk >= 1 then 1 else 0) maxk
+          else Printf.sprintf "FAIL key=automaton-k lookahead automaton of non-terminal %s has a k different from the decided minimal k" (Sexp.to_string (Stdlib.List.hd bad))
+        | L [A "err"] when any_none -> "OK 1 reject"
+        | _ -> "FAIL key=verdict calculate_lookahead_dfas disagrees with the per-non-terminal decisions"))
+  | _ -> "FAIL malformed case"
+
 (* C12 *)
 let c12 = function
   | [_; A "panic"] -> "FAIL key=panic augment_grammar panicked"
@@ -144,6 +218,9 @@ let dispatch (sx : Sexp.t) : string =
   | L (A "eval" :: args) -> c08 args
   | L (A "aug" :: args) -> c12 args
   | L (A "wf" :: args) -> c11 args
+  | L (A "first" :: args) -> c06_first args
+  | L (A "follow" :: args) -> c06_follow args
+  | L (A "dec" :: args) -> c05 args
   | _ -> "SKIP unknown case kind"
 
 let () =
